@@ -1,5 +1,5 @@
 """C17 — query lists round-trip and composed output fits the stated size."""
-import itertools, json, os
+import glob, itertools, json, os
 import lib, qflib
 from lib import enc, dec, show
 
@@ -64,11 +64,167 @@ def gen_dissect(chk):
         reqs.append("dissect 1 %d %d %d %s" % (rng.randint(0, 1), rng.randint(0, 3), rng.randint(0, 1), enc(t)))
     return reqs
 
+# ---------------------------------------------------------------------------------- sizes near INT_MAX
+# A "big" case is (stp, nb, groups), groups = [(N, klen, vlen | -1), ...]: N list nodes that all point to one
+# klen-character key and one vlen-character value ('a' repeated; -1 = NULL value), group after group.
+def big_fields(c):
+    stp, nb, groups = c
+    return "%d %d %s" % (stp, nb, " ".join("%d %d %d" % g for g in groups))
+
+def parse_big(rq):
+    f = rq.split()
+    if f[0] != "bigreq" or len(f) < 6 or (len(f) - 3) % 3: raise ValueError("corpus/C17: not a bigreq request: %r" % rq)
+    v = [int(x) for x in f[1:]]
+    return (v[0], v[1], [tuple(v[i:i + 3]) for i in range(2, len(v), 3)])
+
+def big_oracle(c):
+    """Computed here, independently of the model: (every item is below the per-item limit, worst-case total
+    in unbounded integers, length of the composed text ('a' is never escaped))."""
+    stp, nb, groups = c
+    wc = 6 if nb else 3; lim = INT_MAX // wc
+    groups = [g for g in groups if g[0] > 0]
+    n = sum(N for N, kl, vl in groups)
+    items_ok = all(kl < lim and vl < lim for N, kl, vl in groups)
+    total = sum(N * (wc * kl + (0 if vl < 0 else 1 + wc * vl)) for N, kl, vl in groups) + n - 1
+    textlen = sum(N * (kl + (0 if vl < 0 else 1 + vl)) for N, kl, vl in groups) + n - 1
+    return items_ok, total, textlen
+
+def corpus_cases(tier):
+    """former witnesses, corpus/C17/*.json: {"cases": [{"request": "bigreq ...", "tier": "quick"|"thorough", ...}]}"""
+    out = []
+    for f in sorted(glob.glob(os.path.join(lib.VERIF, "corpus", PID, "*.json"))):
+        for c in json.load(open(f))["cases"]:
+            if c.get("tier", "quick") == "quick" or tier != "quick": out.append(parse_big(c["request"]))
+    return out
+
+def gen_big(chk):
+    rng = chk.rng; quick = chk.tier == "quick"
+    out = [(0, 0, [(2, 1000, 1000)]), (0, 1, [(2731, 65536, 65536)]), (0, 0, [(32768, 65535, -1)]), (1, 1, [(5461, 65536, -1)]),
+           # the total is exactly INT_MAX (accepted; the allocating variant gives the malloc code)
+           (0, 0, [(32768, 21845, -1)]), (1, 0, [(16384, 21845, 21845)]), (0, 1, [(16384, 10922, 10923)]),
+           # INT_MAX - 1, INT_MAX + 1, INT_MAX - 2, + 2, + 3
+           (0, 0, [(32766, 21845, -1), (1, 43690, -1)]), (0, 0, [(32768, 21845, -1), (1, 0, -1)]),
+           (0, 0, [(20853, 34327, -1)]), (0, 0, [(12505, 57243, -1)]), (0, 0, [(20261, 35330, -1)]),
+           # the total passes INT_MAX in the middle of the list, small items follow
+           (0, 0, [(32769, 21845, -1), (5, 3, 3)]), (1, 1, [(5, 3, 3), (16385, 21845, 21845), (2, 0, -1)])]
+    for _ in range(16 if quick else 400):
+        nb = rng.randint(0, 1); wc = 6 if nb else 3
+        kl = rng.choice([rng.randint(4000, 70000), 65536, 21845])
+        vl = rng.choice([-1, -1, 0, rng.randint(0, 70000), kl])
+        per = wc * kl + (0 if vl < 0 else 1 + wc * vl) + 1
+        N = max(1, min(200000, (INT_MAX + 1) // per + rng.choice([-2, -1, 0, 0, 0, 1, 2, 50])))
+        groups = [(N, kl, vl)]
+        rem = INT_MAX - big_oracle((0, nb, groups))[1]
+        if rem > 1 and rng.random() < 0.8:
+            # one more item that brings the total to within a few characters of INT_MAX, on either side
+            groups.append((1, max(0, (rem - 1) // wc + rng.choice([-1, 0, 0, 1])), -1))
+            if rng.random() < 0.3: groups.append((rng.randint(1, 3), rng.randint(0, 2), rng.choice([-1, 0, 1])))
+        if rng.random() < 0.2: groups.insert(0, (rng.randint(1, 4), rng.randint(0, 9), rng.choice([-1, 0, 5])))
+        out.append((rng.randint(0, 1), nb, groups))
+    if not quick:
+        # the per-item limits, a single item whose key and value parts together pass INT_MAX, two- and three-item
+        # totals just above INT_MAX (one 239 .. 716 MB string shared by key and value; x4 as wchar_t)
+        out += [(0, 0, [(1, 715827882, -1)]), (0, 1, [(1, 357913941, -1)]), (0, 0, [(1, 715827881, -1)]),
+                (0, 0, [(2, 357913940, 357913940)]), (0, 0, [(3, 715827881, -1)]), (0, 0, [(3, 238609294, -1)]),
+                (0, 1, [(1, 357913940, 357913940)]), (0, 0, [(2, 1000, 1000), (1, 715827882, -1)])]
+    return out
+
+def mem_available():
+    try:
+        for ln in open("/proc/meminfo"):
+            if ln.startswith("MemAvailable"): return int(ln.split()[1]) * 1024
+    except OSError: pass
+    return 0
+
+def check_sizes(chk, exes, mdl):
+    """chars-required and compose-malloc on lists whose worst-case size is near or above INT_MAX: the former
+    witnesses of corpus/C17 first, then fixed boundary cases and random ones; all four builds."""
+    cases = []
+    for c in corpus_cases(chk.tier) + gen_big(chk):
+        if c not in cases: cases.append(c)
+    def V(what, rq, o, name, **kw):
+        d = {"request": rq, "impl": o, "build": name}; d.update(kw); chk.violation(what, d)
+    def judge(c, name, o, om, m, spec):
+        items_ok, total, textlen = big_oracle(c)
+        rq = "bigreq " + big_fields(c)
+        fits = items_ok and total <= INT_MAX
+        of = o.split()
+        if of[1] == "nomem": lib.log("C17: %s: not enough memory on the %s build, skipped" % (rq, name)); return
+        if spec != "%d %d" % (items_ok, total):
+            chk.violation("the size vocabulary of the C17 theorems (no_item_too_large, total_size) differs from the independent computation",
+                          {"correspondence": "Proofs/QueryProofs.v total_size / no_item_too_large vs gen/c17.py big_oracle", "request": rq, "spec": spec,
+                           "oracle": "%d %d" % (items_ok, total)}, found_input=False)
+        # oracles on the implementation's own answer
+        bad = False
+        if len(of) != 3 or of[1] not in ("0", "4") or (of[1] == "0") != (of[2] != "-"):
+            V("chars-required: malformed result or unexpected return code", rq, o, name); bad = True
+        elif of[1] == "0" and not fits:
+            V("chars-required reports success with a wrapped count: the true size exceeds INT_MAX%s" % ("" if items_ok else " (and an item is beyond the per-item limit)"),
+              rq, o, name, charsRequired=int(of[2]), true_size=total, text_length=textlen); bad = True
+        elif of[1] == "0" and int(of[2]) < textlen:
+            V("chars-required is smaller than the text it is meant to hold", rq, o, name, charsRequired=int(of[2]), text_length=textlen); bad = True
+        if om is not None:
+            if om.split()[1] == "nomem": pass
+            elif om == "bigmalloc 0" and not fits:
+                V("compose-malloc succeeded for a list whose size exceeds INT_MAX", "bigmalloc " + big_fields(c), om, name, true_size=total); bad = True
+            elif om not in ("bigmalloc 0", "bigmalloc 3", "bigmalloc 4"):
+                V("compose-malloc: unexpected return code", "bigmalloc " + big_fields(c), om, name); bad = True
+        # correspondence
+        if not bad and m is not None and o != m:
+            chk.violation("correspondence broken: model and implementation disagree on the size arithmetic",
+                          {"correspondence": "Model/Query.v required_loop vs src/UriQuery.c uriComposeQueryEngine", "request": rq, "model": m, "impl": o, "build": name},
+                          found_input=False)
+        if not bad and om is not None and om.split()[1] != "nomem":
+            want = "bigmalloc %d" % (4 if not fits else 3 if total == INT_MAX else 0)     # statement of C17_malloc_no_wrap
+            if om != want:
+                chk.violation("correspondence broken: compose-malloc does not follow C17_malloc_no_wrap",
+                              {"correspondence": "Model/Query.v compose_malloc vs src/UriQuery.c uriComposeQueryMallocExMm", "request": "bigmalloc " + big_fields(c),
+                               "expected": want, "impl": om, "build": name}, found_input=False)
+    def wants_malloc(c):
+        items_ok, total, textlen = big_oracle(c)
+        # a list that fits is composed into total + 1 characters: only when that stays small (or is refused up front)
+        return not (items_ok and total < INT_MAX) or total < (1 << 24)
+    small = [c for c in cases if max(max(kl, vl) for N, kl, vl in c[2]) <= 10**6]
+    giant = [c for c in cases if c not in small]
+    rqs = ["bigreq " + big_fields(c) for c in small]
+    mrq = ["bigmalloc " + big_fields(c) for c in small if wants_malloc(c)]
+    par = max(1, min(lib.NCPU, len(rqs)))      # the extracted model does its int arithmetic on binary numbers: one list per process
+    model = lib.run_lines(mdl, rqs, chunks=par)
+    spec = lib.run_lines(mdl, ["spec_total %d %s" % (c[1], " ".join("%d %d %d" % g for g in c[2])) for c in small], chunks=par)
+    for name, exe in exes.items():
+        out = qflib.run_lines(exe, rqs + mrq, chunks=par)
+        chk.cov["evaluations"] += len(out); chk.cov["traces_validated_against_impl"] += len(rqs)
+        om = dict(zip(mrq, out[len(rqs):]))
+        for c, rq, o, m, sp in zip(small, rqs, out, model, spec):
+            if o.startswith("!"):
+                V("the implementation crashed or a sanitizer stopped it", rq, o, name); continue
+            x = om.get("bigmalloc " + big_fields(c))
+            if x is not None and x.startswith("!"):
+                V("the implementation crashed or a sanitizer stopped it", "bigmalloc " + big_fields(c), x, name); x = None
+            judge(c, name, o, x, m, sp)
+    for c in giant:
+        rq = "bigreq " + big_fields(c)
+        m = lib.run_lines(mdl, [rq])[0]
+        sp = lib.run_lines(mdl, ["spec_total %d %s" % (c[1], " ".join("%d %d %d" % g for g in c[2]))])[0]
+        for name, exe in exes.items():
+            chars = sum(kl + 1 + (vl + 1 if vl not in (-1, kl) else 0) for N, kl, vl in c[2])
+            need = int(chars * (1 if name.startswith("A") else 4) * (1.5 if "asan" in name else 1.25)) + (256 << 20)
+            if mem_available() < need:
+                lib.log("C17: %s skipped on the %s build: needs %d MB, %d MB available" % (rq, name, need >> 20, mem_available() >> 20)); continue
+            o = qflib.run_lines(exe, [rq], chunks=1)[0]; chk.cov["evaluations"] += 1
+            x = qflib.run_lines(exe, ["bigmalloc " + big_fields(c)], chunks=1)[0] if wants_malloc(c) else None
+            if o.startswith("!") or (x or "").startswith("!"):
+                V("the implementation crashed or a sanitizer stopped it", rq, o if o.startswith("!") else x, name); continue
+            judge(c, name, o, x, m, sp)
+    return len(cases), len(giant)
+
 # ---------------------------------------------------------------------------------- the check
 def run(chk):
     proofs = lib.check_proofs(PID)
     exes, mdl = builds()
     quick = chk.tier == "quick"
+    # ---- size arithmetic near INT_MAX: the former witnesses (corpus/C17) run first
+    nbig, ngiant = check_sizes(chk, exes, mdl)
     lists = gen_lists(chk)
     flagsets = [(s, n) for s in (0, 1) for n in (0, 1)]
 
@@ -218,53 +374,6 @@ def run(chk):
             want = "dissect 0 %s %s out=0" % (s.split()[0], s)
             if o != want: V("dissect differs from the splitting specification", rq, o, name, spec=want)
 
-    # ---- size arithmetic near INT_MAX (lists whose items share one buffer) --------------
-    # cheap lists first: thousands of items sharing one 64K string (memory stays below 1 MB)
-    big = [(0, 0, 5462, 65536, 65536), (0, 1, 2731, 65536, 65536), (1, 0, 10923, 65536, 65536),
-           (0, 0, 32768, 65535, -1), (0, 0, 2, 1000, 1000), (1, 1, 5461, 65536, -1)]
-    if not quick:
-        # the D10 witness of DESIGN.md (one 716 MB string used as key and value; 2.9 GB as wchar_t),
-        # the per-item limits, and a two-item wrap
-        big += [(0, 0, 1, 715827881, 715827881), (0, 0, 1, 715827882, -1), (0, 1, 1, 357913941, -1),
-                (0, 0, 2, 357913940, 357913940), (0, 0, 3, 715827881, -1)]
-    confirmed = []
-    def mem_available():
-        try:
-            for ln in open("/proc/meminfo"):
-                if ln.startswith("MemAvailable"): return int(ln.split()[1]) * 1024
-        except OSError: pass
-        return 0
-    for (stp, nb, N, kl, vl) in big:
-        rq = "bigreq %d %d %d %d %d" % (stp, nb, N, kl, vl)
-        sw, total = lib.run_lines(mdl, ["spec_sumwraps %d %d %d %d" % (nb, N, kl, vl)])[0].split()
-        m = lib.run_lines(mdl, [rq])[0] if N <= 200000 else None
-        minlen = N * (kl + (0 if vl < 0 else 1 + vl)) + N - 1     # 'a' is never escaped
-        for name in ("A", "W"):
-            need = int((kl + 1 + (vl + 1 if vl not in (-1, kl) else 0)) * (1 if name == "A" else 4) * 1.25) + (64 << 20)
-            if kl > 10**7 and mem_available() < need:
-                lib.log("C17: %s skipped on the %s build: needs %d MB, %d MB available" % (rq, name, need >> 20, mem_available() >> 20)); continue
-            o = lib.run_lines(exes[name], [rq], chunks=1)[0]; chk.cov["evaluations"] += 1
-            om = lib.run_lines(exes[name], ["bigmalloc" + rq[6:]], chunks=1)[0]; chk.cov["evaluations"] += 1
-            of = o.split()
-            if of[1] == "nomem": lib.log("C17: %s: not enough memory, skipped" % rq); continue
-            if m is not None and o != m:
-                chk.violation("correspondence broken: model and implementation disagree on the size arithmetic",
-                              {"correspondence": "Model/Query.v required_loop vs src/UriQuery.c uriComposeQueryEngine", "request": rq, "model": m, "impl": o, "build": name}, found_input=False)
-            wrapped = of[1] == "0" and int(of[2]) < minlen
-            if wrapped and sw == "1":
-                confirmed.append("%s build: %d item(s) sharing one %d-character key%s, normalizeBreaks=%d -> rc=0 charsRequired=%s (needed >= %d)"
-                                 % ("char" if name == "A" else "wchar_t", N, kl, "" if vl < 0 else " and value", nb, of[2], minlen))
-            elif wrapped:
-                V("chars-required is smaller than the text it is meant to hold", rq, o, name, minimal_length=minlen)
-            if int(total) > INT_MAX and om == "bigmalloc 0":
-                V("compose-malloc succeeded for a list whose size exceeds INT_MAX", rq, om, name)
-    if confirmed:
-        chk.known_finding("D10 uriComposeQueryCharsRequiredEx reports success with a wrapped count (shape sum_wraps: every item "
-                          "passes the per-item guard, the unchecked sum passes INT_MAX); model witness C17_no_wrap_refuted "
-                          "(1 item, key=value=715827881 chars -> -9); on the implementation: "
-                          + "; ".join(confirmed[:1] + [c for c in confirmed[1:] if ": 1 item(s) sharing one 715827881-character key and value" in c][:1])
-                          + (" (%d confirmations in all)" % len(confirmed)))
-
     # ---- correspondence verdict -----------------------------------------------------------
     nm = 0; ncr = 0
     for fl in exes:
@@ -293,15 +402,18 @@ def run(chk):
                        "random longer lists; per list and flag pair: chars-required, compose-malloc (default / counting manager), compose at "
                        "capacities -1..len+2 (all of them for 1-item lists and a rotating eighth of the 2-item lists (all in the thorough tier), else the critical ones), dissect of "
                        "the composed text; dissect of every string of length <= %d over {& = a + %% 0 D A} with all option combinations; "
+                       "lists with a worst-case size near or above INT_MAX (former witnesses of corpus/C17 first, totals INT_MAX-2..INT_MAX+3, random ones within a few characters of INT_MAX): "
+                       "chars-required and compose-malloc against the size computed in unbounded integers; "
                        "non-trivial = something was stored / an item was produced; distinct by request line; 4 builds each" % (4 if quick else 5))
     chk.cov["distribution"] = {"lists": len(lists), "chars_required_and_malloc": len(p1), "compose": len(p2),
-                               "roundtrip_dissect": len(p3), "dissect_any_text": len(p4), "alloc_failure": len(p5), "int_max_lists": len(big)}
+                               "roundtrip_dissect": len(p3), "dissect_any_text": len(p4), "alloc_failure": len(p5), "int_max_lists": nbig, "int_max_lists_over_1MB_strings": ngiant}
     chk.cov["samples"] = [{"request": reqs[i], "model": model[i]} for i in (0, o1 + len(p2) // 2, o2 + len(p3) // 2, o3 + len(p4) // 2, len(reqs) - 1)]
     chk.cov["exhaustive"] = False
     chk.assumptions = ["keys and values over code points 1..255 without 0x5A (the canary used to observe stores)",
                        "query texts, keys and values shorter than INT_MAX characters (the int casts of uriAppendQueryItem are exact)",
                        "allocation failure is exercised on the implementation only (codes, leaks); the model has no failing allocator",
-                       "the near-INT_MAX lists run on the plain builds only: the UBSan builds stop at the signed overflow in UriQuery.c:237"]
+                       "near-INT_MAX lists: items of one group share one key and one value string of 'a's (list nodes are distinct); all four builds, "
+                       "compose-malloc only where it refuses up front or the text is below 16 MB"]
     return chk.finish(proofs)
 
 def replay(path):
@@ -313,6 +425,5 @@ def replay(path):
     print("request:", rq)
     if rq.split()[0] not in ("cmallocf", "dissectf", "bigmalloc"): print("model  :", lib.run_lines(mdl, [rq])[0])
     for fl, exe in exes.items():
-        if rq.startswith("big") and "asan" in fl: continue
         print("impl %-7s:" % fl, lib.run_lines(exe, [rq])[0])
     return 0
